@@ -35,6 +35,7 @@ type Case struct {
 	History    []HistProg `json:"history,omitempty"`
 	Prog       []string   `json:"prog,omitempty"`
 	Sub        []string   `json:"sub,omitempty"`
+	Lang       string     `json:"lang,omitempty"` // parser variant ("" = bash)
 	Solo       bool       `json:"solo,omitempty"` // run the statements plainly in sequence (crash attribution)
 	Theme      string     `json:"theme,omitempty"`
 	Params     []string   `json:"params,omitempty"`   // positional parameters the Runner is built with
@@ -111,7 +112,12 @@ func genC27(c *Case, r *kit.Rand) {
 	c.Setup = append(genSetup(r.Fork("setup"), c.InFunc), themeSetup(c.Theme, r.Fork("tsetup"))...)
 	c.S = genMutationsT(r.Fork("S"), r.Range(1, 8), c.InFunc, false, c.Theme)
 	c.Ctx = kit.Pick(r, isolatingContexts)
-	if c.Ctx == "background" || c.Ctx == "coproc-like-bg-subshell" || c.Ctx == "procsubst-out" || r.Chance(1, 4) {
+	if lr := r.Fork("lang"); lr.Chance(1, 8) {
+		// parsed as zsh: its "&!" and "&|" start a (disowned) background job
+		c.Lang = "zsh"
+		c.Ctx = kit.Pick(lr, []string{"zsh-disown-bang", "zsh-disown-pipe", "background", "subshell", "coproc-like-bg-subshell"})
+	}
+	if c.Ctx == "background" || strings.HasPrefix(c.Ctx, "zsh-disown") || c.Ctx == "coproc-like-bg-subshell" || c.Ctx == "procsubst-out" || r.Chance(1, 4) {
 		c.T = genMutationsT(r.Fork("T"), r.Range(0, 3), c.InFunc, true, c.Theme)
 	}
 	c.Faults = genFaults(r.Fork("faults"), []string{"mkfifo-fail", "fifo-open-fail", "exec-fail"})
@@ -334,6 +340,7 @@ var c29Pool = []string{
 	"time -p true 2>/dev/null", "! false", "coproc_skip=1", "for ((i=0;i<2;i++)); do echo $i{a,b}; done", "until true; do :; done", "select_x=1", "echo ${s1@Q} ${s1^^} ${!s*} ${#arr[@]} ${arr[@]:1:2}", "echo $(< /home/f1.txt)", "x=$(( ${#s1} + 1 )); echo $x", "case $s1 in f*|g*) echo {c1,c2};; *) :;; esac", "[[ $s1 =~ ^(f)(o+)$ ]] && echo ${BASH_REMATCH[1]}", "ff() { local a1=$1; shift; echo \"$a1 $*\" {y,z}; }; ff {1,2} 3", "al2() { :; }; alias al2='echo aliased '; al2 ll x", "unalias ll 2>/dev/null", "eval 'ff e{1,2}' 2>/dev/null", "source /home/d1/g.sh", "trap 'echo {t1,t2}' ERR; false", "wait",
 	"echo $s1{a,b}", "echo \"p q\"{1..3}", "echo {a,\"b c\"}.txt", "echo ${s1}{1,2}", "echo $(echo cs){x,y}", "echo '{q}'{1,2}$s1", "for i in $s1{x,y} \"z\"{1,2}; do echo $i; done", "arr3=($s1{a,b} \"q\"{1,2})", "export ex$s1{a,b}=1 2>/dev/null", "declare v$s1{1,2}=val 2>/dev/null", "ll $s1{m,n}", "cat <<< $s1{h,i}", "echo ~{a,b} {a,b}$((1+1))", "case $s1{a,b} in *) echo c;; esac", "[[ $s1{a,b} == f* ]] || true", "f $s1{p,q} | cat", "{ echo $s1{bg1,bg2}; } &",
 	"declare -a arr=({1..3} $s1)", "declare v{1,2}=val", "export ex{a,b}=1", "local_fn() { local q{1,2}=z; echo $q1; }; local_fn",
+	"fc() { # c1\n echo x # c2\n}\ndeclare -f fc", "# leading comment\nfc2() {\n# inside\n:\n}; declare -f fc2 >/dev/null; fc2", "declare -f f >/dev/null # trailing", "fc3() (\n# in subshell body\necho y\n)\ntype fc3 >/dev/null; declare -f fc3 fc fc2", "if true; then # c\n:\nfi # d", "case x in # c\nx) : ;; # d\nesac", "arr4=( # c\n1 # d\n2\n)", "echo $( # c\necho in # d\n)",
 	"declare -A am; am=(a 1 b 2); am=(a 1 b 2)", "ENVMAP=(k1 v1 k2 v2)", "declare -A am2; am2=(k v o); am2+=(p q)", "amf() { local -A lm; lm=(a 1 b 2); }; amf; amf", "unset 'ENVSPARSE[5]'", "unset 'ENVSPARSE[-1]'", "unset 'ENVARR[-1]'", "for i in 1 2; do declare -A lm2; lm2=(x y z w); done",
 	"for i in {1..3} x{a,b}; do echo $i; done", "arr2=({a,b} c [5]=d)", "arr2+=(e{1,2})", "s1+=x", "ENVARR+=x", "ENVARR+=(y z)", "ENVARR+=([1]=X)", "ENVARR+=([0]=Z w)", "ENVARR+=([-1]=neg)", "ENVSPARSE+=([2]=chg)", "ENVSPARSE+=([5]=chg [9]=far)", "ENVMAP+=([k]=new)", "ENVMAP+=([q]=1)", "ENVARR[1]+=app", "ENVMAP[k]+=app", "unset 'ENVSPARSE[2]'", "ENVARR=(${ENVARR[@]} more)", "read -a ENVARR <<< 'r1 r2'", "mapfile -t ENVARR <<< mapped", "declare -a ENVARR", "local_env() { local ENVARR; ENVARR+=(l); }; local_env", "f_env() { ENVARR[0]=in-func; ENVMAP[k]=in-func; }; f_env", "( ENVARR[0]=sub; ENVMAP[k]=sub )", "{ ENVARR+=([1]=bg); } &", "x=$(ENVARR[1]=cs; echo ${ENVARR[1]})", "ENVARR[0]=pipe | cat", "ENVARR[0]=changed", "ENVSPARSE[3]=new", "ENVSPARSE+=(w)", "ENVMAP[k]=changed", "ENVMAP[n]=1", "unset 'ENVMAP[k]'", "unset 'ENVARR[1]'", "unset ENVARR", "ENVSTR+=more", "unset ENVSTR", "export ENVSTR=re", "ENVRO=try 2>/dev/null", "declare -x ENVARR", "readonly ENVMAP",
 	"cat <<EOF\nhere $s1 $(echo sub)\nEOF", "cat <<-EOF\n\ttabbed $s1\n\tline2\n\tEOF", "cat <<'EOF'\nliteral $s1\nEOF", "cat <<< \"hs $s1\"",
@@ -369,6 +376,7 @@ var c30HistPool = []string{
 	"trap 'echo hist-exit-trap' EXIT", "trap 'echo hist-err-trap' ERR", "false", "fail 3", "exit 7", "fatal",
 	"exec > /home/out.txt", "exec 2>/dev/null", "exec < /home/f2.txt", "sleep 50 &", "{ sleep 20; } &", "(sleep 5; exit 2) &", "sleep 3", "echo hist-out", "echo hist-err >&2",
 	"IFS=:", "OPTIND=4", "getopts ab o -a", "read hv <<< x", "PS1=p", "HOME=/changed", "unset HOME", "PATH=/nowhere", "s1=from-history", "a=(from history)", "f1() { echo from-history; }", "unset IFS",
+	"true <&-", "{ :; } <&-", "echo x >&- 2>/dev/null", "true 2>&-", ": 3<&0 <&-", "read hz <&- 2>/dev/null", "hf <&- 2>/dev/null", "( : ) <&-", "true <&- &", "x=$(true <&-)", "true | cat <&- 2>/dev/null", "eval ':' <&-", "exec 3<&0", "exec 3<&-",
 	"cat <(sleep 10) &", "while true; do sleep 1; done", "read hist_line < /home/f2.txt", "wait",
 }
 
@@ -404,6 +412,40 @@ func c30StatusTriple(r *kit.Rand) string {
 	return set + "\n" + mid + "\n" + obs
 }
 
+// c30StateTriple composes consecutive top-level statements around one piece
+// of shell state: one to three changes, then an observer.
+func c30StateTriple(r *kit.Rand) string {
+	type facet struct{ change, observe []string }
+	facets := []facet{
+		{[]string{"IFS=:", "IFS=',;'", "IFS=''", "IFS=x", "unset IFS", "IFS=' '", "IFS=", "local IFS 2>/dev/null", "declare IFS=:"}, []string{"x=a:b,c; set -- $x; echo $# \"$*\"", "read p q <<< 'a:b c'; echo \"$p|$q\"", "v='a:b:c'; for w in $v; do echo \"[$w]\"; done", "set -- a b; echo \"$*\" $*", "arr=(a:b c); echo \"${arr[*]}\""}},
+		{[]string{"getopts ab o -a -b", "OPTIND=1", "OPTIND=3", "unset OPTIND", "getopts a:b o -a arg", "unset OPTARG"}, []string{"getopts ab o -a -b; echo \"$o $OPTIND ${OPTARG-unset}\"", "echo \"$OPTIND ${OPTARG-unset}\""}},
+		{[]string{"HOME=/h1", "unset HOME", "HOME=", "export HOME=/h2"}, []string{"echo ~ ~/x", "cd 2>&1; pwd"}},
+		{[]string{"cd /home/d1", "cd ..", "cd /", "cd - >/dev/null", "OLDPWD=/fake", "PWD=/fake"}, []string{"cd - 2>&1; pwd", "echo $OLDPWD $PWD", "pwd"}},
+		{[]string{"set -- a b c", "shift", "set --", "shift 2", "set -- \"$@\" x"}, []string{"echo $# $1 \"$*\"", "for p; do echo p=$p; done"}},
+		{[]string{"set -f", "set +f", "shopt -s nullglob", "shopt -u nullglob", "set -o noglob", "shopt -s dotglob"}, []string{"echo /home/d1/*.sh /home/d1/nomatch*", "files=(/home/d1/*); echo ${#files[@]}"}},
+		{[]string{"alias q='echo q1'", "unalias q", "shopt -s expand_aliases", "shopt -u expand_aliases", "alias q='echo q2 '", "unalias -a"}, []string{"q 2>&1", "alias 2>&1", "type q 2>&1"}},
+		{[]string{"ff() { echo 1; }", "unset -f ff", "ff() { echo 2; }", "unset ff"}, []string{"ff 2>&1", "declare -f ff 2>&1", "type ff 2>&1"}},
+		{[]string{"trap 'echo err-trap' ERR", "trap - ERR", "trap '' ERR", "trap 'echo dbg' DEBUG", "trap - DEBUG"}, []string{"false", "trap", "(exit 3); echo after"}},
+		{[]string{"arr=(1 2 3)", "unset 'arr[1]'", "arr+=(4)", "arr[5]=x", "unset arr", "declare -A arr 2>/dev/null", "arr=()"}, []string{"echo \"${arr[@]}\" ${#arr[@]} ${!arr[@]}", "declare -p arr 2>&1"}},
+		{[]string{"true | false | true", "false | true", "true", "(exit 3) | (exit 4)"}, []string{"echo ${PIPESTATUS[@]}", "echo $? ${PIPESTATUS[0]}"}},
+		{[]string{"[[ abc =~ (b)(c) ]]", "[[ x =~ y ]]", "[[ abc =~ a ]]"}, []string{"echo \"${BASH_REMATCH[@]}\" ${#BASH_REMATCH[@]}"}},
+		{[]string{"read <<< r1", "read v <<< r2", "REPLY=r3", "unset REPLY"}, []string{"echo \"${REPLY-unset}\""}},
+		{[]string{"pushd /home/d1 >/dev/null", "popd >/dev/null 2>&1", "pushd /home/d2 >/dev/null", "dirs -c", "pushd >/dev/null 2>&1"}, []string{"dirs", "echo \"${DIRSTACK[@]}\""}},
+		{[]string{"set -u", "set +u", "set -e", "set +e", "set -o pipefail", "set +o pipefail", "set -a", "set +a"}, []string{"echo \"[${undef_v-}]\" $-", "false | true; echo rc=$?", "av=1; declare -p av", "set +o"}},
+		{[]string{"export ex1=1", "export -n ex1", "unset ex1", "ex1=2", "declare -x ex1", "declare +x ex1", "readonly ro1=1", "ro1=2 2>/dev/null"}, []string{"declare -p ex1 ro1 2>&1", "echo ${ex1-unset} ${ro1-unset}"}},
+	}
+	f := facets[r.Intn(len(facets))]
+	var lines []string
+	for i := r.Range(1, 3); i > 0; i-- {
+		lines = append(lines, kit.Pick(r, f.change))
+	}
+	lines = append(lines, kit.Pick(r, f.observe))
+	if r.Chance(1, 3) {
+		lines = append(lines, kit.Pick(r, f.change), kit.Pick(r, f.observe))
+	}
+	return strings.Join(lines, "\n")
+}
+
 func genC30(c *Case, r *kit.Rand) {
 	if r.Chance(1, 4) {
 		c.Kind = "incremental"
@@ -413,6 +455,8 @@ func genC30(c *Case, r *kit.Rand) {
 			s := kit.Pick(r, c30ProgPool)
 			if r.Chance(1, 4) {
 				s = c30StatusTriple(r)
+			} else if r.Chance(1, 3) {
+				s = c30StateTriple(r)
 			} else if r.Chance(1, 3) {
 				s = isg.Stmt()
 			}
@@ -438,6 +482,10 @@ func genC30(c *Case, r *kit.Rand) {
 				h.Lines = append(h.Lines, sg.Stmt())
 				continue
 			}
+			if r.Chance(1, 6) {
+				h.Lines = append(h.Lines, c30StateTriple(r))
+				continue
+			}
 			h.Lines = append(h.Lines, kit.Pick(r, c30HistPool))
 		}
 		if r.Chance(1, 4) {
@@ -452,6 +500,10 @@ func genC30(c *Case, r *kit.Rand) {
 	for i := 0; i < n; i++ {
 		if r.Chance(1, 8) {
 			c.Prog = append(c.Prog, c30StatusTriple(r))
+			continue
+		}
+		if r.Chance(1, 6) {
+			c.Prog = append(c.Prog, c30StateTriple(r))
 			continue
 		}
 		c.Prog = append(c.Prog, kit.Pick(r, c30ProgPool))
@@ -565,6 +617,11 @@ var c31Pool = []c31Prog{
 	{"err-trap-read", []string{"trap 'read z' ERR", "false"}, "silent"},
 	{"exit-trap-wait", []string{"trap 'wait' EXIT", "sleep 1000 &"}, "nil"},
 	{"function-trap-loop", []string{"tf() { while :; do :; done; }", "trap tf EXIT", "true"}, "nil"},
+	{"four-readers-one-stdin", []string{"read a & read b & read c & read d", "wait"}, "silent"},
+	{"three-readers-one-stdin-wait-jobs", []string{"read a &", "read b &", "mapfile c &", "wait g1 g2 g3"}, "silent"},
+	{"readers-in-pipeline-and-job", []string{"read a | read b & read c", "wait"}, "silent"},
+	{"cmdsubst-file-endless", []string{"x=$(< /dev/zero)"}, "nil"},
+	{"cmdsubst-file-endless-lines", []string{"echo \"$(< /dev/yes)\""}, "nil"},
 	{"read-endless-device", []string{"read x < /dev/zero"}, "nil"},
 	{"read-array-endless-device", []string{"read -r -a arr < /dev/zero"}, "nil"},
 	{"mapfile-endless-lines", []string{"mapfile -t lines < /dev/yes"}, "nil"},
@@ -647,7 +704,7 @@ func baseSpec(c *Case) RunSpec {
 	if stdin == "" {
 		stdin = "nil"
 	}
-	return RunSpec{Strategy: c.Strategy, CancelStep: -1, CancelProg: -1, PipeCap: c.PipeCap, FaultProg: -1, Stdin: stdin, Files: simDirs, StdoutFail: -1, EnvArrays: c.EnvArrays, Params: c.Params}
+	return RunSpec{Strategy: c.Strategy, CancelStep: -1, CancelProg: -1, PipeCap: c.PipeCap, FaultProg: -1, Stdin: stdin, Files: simDirs, StdoutFail: -1, EnvArrays: c.EnvArrays, Params: c.Params, Lang: c.Lang}
 }
 
 func seqSpec(c *Case) RunSpec {
@@ -752,6 +809,10 @@ func Evaluate(t *testing.T, c *Case, raceLog func() string) *Verdict {
 		v.Case = &cc
 	}
 	harness := func(res *RunResult) bool {
+		if res.ParseSkip != "" {
+			v.Skipped = res.ParseSkip
+			return true
+		}
 		if res.HarnessErr != "" {
 			v.Skipped = "harness: " + res.HarnessErr
 			return true
